@@ -135,6 +135,11 @@ class SharedJoin(MVPN):
             )
         cursor += sourceiplen
 
+        # the source address the route announces must leave room for the group length octet:
+        # a 32 bit route announcing a 128 bit source indexed past the end (IndexError, not Notify)
+        if cursor >= len(packed):
+            raise Notify(3, 5, 'Invalid C-Multicast Route: the source address runs past the end of the route.')
+
         # Validate group IP length
         groupiplen = int(packed[cursor] / 8)
         if groupiplen != IPv4.BYTES and groupiplen != IPv6.BYTES:
@@ -143,6 +148,8 @@ class SharedJoin(MVPN):
                 5,
                 f'Invalid C-Multicast Route length ({groupiplen * 8} bits). Expected 32 bits (IPv4) or 128 bits (IPv6).',
             )
+        if cursor + 1 + groupiplen != len(packed):
+            raise Notify(3, 5, 'Invalid C-Multicast Route: the address lengths do not add up to the route length.')
 
         return cls(packed, afi)
 
